@@ -724,6 +724,10 @@ class PerStream(runner.Stream):
             return "panic instead of Ok/Err"
         if ans == "bad-op":
             return "the harness does not understand the request"
+        if ans.startswith("slice-differs"):
+            # harness/src/per.rs w2!: the same write through the slice writer into an all-ones destination
+            return ("written through the slice writer into a destination that is not zero-filled, the primitive produces other "
+                    "bits or touches bits outside its field: " + ans[:160])
         t = req.split(" ")
         s = self._spec(req)
         if s is None:
